@@ -222,6 +222,7 @@ func cmdCheck(args []string) int {
 	slow := []string{}
 	covers, coversSat := 0, 0
 	stubSet := map[string]bool{}
+	abstractedAll := map[string]bool{}
 	var outOfSubset []string
 	for _, r := range append(append([]*FuncResult(nil), pr.results...), pr.lemmas...) {
 		info := map[string]interface{}{"function": r.Key}
@@ -268,6 +269,16 @@ func cmdCheck(args []string) int {
 		}
 		info["obligations_by_kind"] = kinds
 		info["stubs"] = r.StubsUsed
+		if len(r.AssumedObls) > 0 {
+			info["automatic_obligations_assumed_not_proved"] = r.AssumedObls
+			abstractedAll[r.Key+": panic-freedom and callee preconditions of this function are assumed, only its contract-derived obligations are proved"] = true
+		}
+		if len(r.Abstracted) > 0 {
+			info["calls_abstracted_as_arbitrary"] = r.Abstracted
+			for _, a := range r.Abstracted {
+				abstractedAll[r.Key+" -> "+a] = true
+			}
+		}
 		info["inlined"] = r.Inlined
 		info["callee_contracts_used"] = r.Callees
 		if r.SafetyOnly {
@@ -401,6 +412,9 @@ func cmdCheck(args []string) int {
 		"govc itself (VC generator, memory model, spec parser)", "SMT solvers z3 5.1.0 (z3-new), z3 4.8.12, cvc5 1.0.3: unsat answers trusted")
 	for _, s := range sortedKeys(stubSet) {
 		trusted = append(trusted, "assumed library contract (stub): "+s)
+	}
+	for _, a := range sortedKeys(abstractedAll) {
+		trusted = append(trusted, "call over-approximated as 'changes anything, returns anything, returns' (its panics, termination and preconditions are not checked): "+a)
 	}
 	trusted = append(trusted, pr.trusted...)
 	var assumptions []string
